@@ -3,6 +3,8 @@
 
   check(trace_lines, scenario_text)  -> list of mismatch strings (empty = accepted)
   check_many([(trace_lines, scenario_text), ...]) -> {index: [mismatch strings]}, statistics dict
+  check_hists(hists, raw_out_lines) -> {sid: [mismatch strings]}, statistics   (enginecheck.Hist objects +
+                                        the 4th result of enginecheck.run_hists)
   python3 tools/planmodel.py selftest [nscenarios] [seed]   generate scenarios, run impl + model, report
   python3 tools/planmodel.py campaign <seed-from> <seed-to> [nscenarios] [dir]   several seeds, totals
 
@@ -403,6 +405,21 @@ def check_many(pairs):
         if not ok: res[pi] += bad0
     stats['mismatching-builds'] = sum(1 for v in res.values() if v)
     return dict(res), stats
+
+def split_scenarios(out_lines):
+    """{scenario id: its trace lines} from the raw output of `impl_run engine` (enginecheck.run_hists()[3])"""
+    per = {}; cur = None
+    for l in out_lines:
+        w = l.split()
+        if w and w[0] == 'scenario': cur = per.setdefault(w[1], [])
+        if cur is not None: cur.append(l)
+    return per
+
+def check_hists(hists, out_lines):
+    """{sid: [mismatches]} for enginecheck.Hist objects and the raw output lines of their run"""
+    per = split_scenarios(out_lines)
+    res, stats = check_many([(per.get(h.sid, []), h.text()) for h in hists])
+    return {hists[i].sid: v for i, v in res.items() if v}, stats
 
 def check(trace_lines, scenario_text):
     """mismatches between the implementation's trace of one scenario and the plan model"""
